@@ -202,6 +202,9 @@ func r3tag(c *core.Ctx, s *schema) {
 
 // ---------------------------------------------------------------- R3.types
 func r3types(c *core.Ctx, s *schema) {
+	if !c.Once("r3types") {
+		return
+	}
 	const R = "R3.types"
 	c.Rule(R, "constraints of the emulator-path leaf types equal TS 38.413 9.4.5")
 	eq := func(p *int64, v int64) bool { return p != nil && *p == v }
